@@ -118,6 +118,9 @@ def frobNorm {m n : Nat} (A : Mat α m n) : ρ := RFun.sqrt (frobSq A)
 def scaleBy {m n : Nat} (A : Mat α m n) (s c : ρ) : Mat α m n :=
   fun i j => A i j * Cx.ofReal s / Cx.ofReal c
 
+/-- `c * H`: a common complex gain / path loss applied to the whole channel -/
+def scaleMat {m n : Nat} (c : α) (A : Mat α m n) : Mat α m n := fun i j => c * A i j
+
 /-! ### channel slices -/
 
 /-- `_get_sub_channel(H, k)` (also `single_matrix_to_matrix_of_matrices(H, Nr)[k]`):
